@@ -118,15 +118,17 @@ def check_program(prog, cap):
     split_reads = dyn_common.split_statement_reads(d.tree)
     cond_walrus = dyn_common.conditional_walrus_sites(d.tree)
     star_kw = dyn_common.star_before_keyword_walrus(d.tree)
+    own_iter = dyn_common.own_iterable_reads(d.tree)
     routed = set()
     for names in list(ins.global_decl.values()) + list(ins.nonlocal_decl.values()):
         routed.update(names)
+    shared = suppview.shared_reads(src, d.filename, proj)
     for rid, pos, name, outcomes in d.reads():
         if not outcomes or name in routed:
             continue        # names rebound through global/nonlocal declarations are inter-procedural: not C03's subject
         rscope = ins.read_scope[rid]
-        fresh = suppview.fresh_read(src, d.filename, proj, pos)
-        if fresh == 'E42':
+        fresh0 = suppview.fresh_read(src, d.filename, proj, pos)
+        if fresh0 == 'E42':
             continue        # C01's subject
         info['checked_reads'] += 1
         if joins:
@@ -134,67 +136,102 @@ def check_program(prog, cap):
         after_return = set()
         dyn_sites = {s for oc, s in outcomes if oc == 'ok'}
         dyn_unbound = any(oc == 'unbound' for oc, s in outcomes)
-        alts = [a for a in fresh['alts']] if isinstance(fresh, dict) else []
         ctx = suppview.parent_context(d.tree, pos)
         in_ann = c01.annotation_after_binding(ins, pos, sorted(dyn_sites, key=str)) or pos in ins.ann_range
-        # (a) phantoms among same-body alternatives
-        for kind, decl in alts:
-            decl = tuple(decl)
-            if decl in ins.sites and ins.sites[decl][2] == rscope and decl not in dyn_sites:
-                if pos in star_kw:
-                    problems.append(('star-argument-evaluated-before-keyword-walrus', '*%s at %s: supp lists the walrus %s of a keyword argument that CPython evaluates afterwards' % (name, pos, decl)))
+        # two views of Flow.names_at for this read: first query on a fresh analysis, and one of all reads queried
+        # in source order on ONE analysis (what lint does); the second is judged only where it differs
+        views = [('', fresh0)]
+        sh_view = shared.get(pos, fresh0)
+        if sh_view != fresh0 and sh_view != 'E42':
+            views.append((':one-analysis-in-source-order', sh_view))
+            info['shared_view_differs'] = info.get('shared_view_differs', 0) + 1
+        for vtag, fresh in views:
+            alts = [a for a in fresh['alts']] if isinstance(fresh, dict) else []
+            # (a) phantoms among same-body alternatives
+            for kind, decl in alts:
+                decl = tuple(decl)
+                if decl in ins.sites and ins.sites[decl][2] == rscope and decl not in dyn_sites:
+                    if pos in star_kw:
+                        problems.append(('star-argument-evaluated-before-keyword-walrus', '*%s at %s: supp lists the walrus %s of a keyword argument that CPython evaluates afterwards' % (name, pos, decl)))
+                    elif rid in ins.class_comp_reads:
+                        problems.append(('class-body-comprehension-sees-class-names', 'read %s at %s inside a comprehension in a class body: supp lists the class-level binding %s, CPython skips the class scope there' % (name, pos, decl)))
+                    elif decl in (nrv.sites(pos, name) or ()):
+                        after_return.add(decl)
+                        problems.append(('phantom-after-return', 'supp lists %s for read %s at %s; it reaches the read only if return statements are treated as no-ops' % (decl, name, pos)))
+                    elif pos in split_reads and name in split_reads[pos]:
+                        problems.append(('statement-split-by-comprehension', 'read %s at %s: supp lists the later binding %s of its own statement' % (name, pos, decl)))
+                    elif in_ann:
+                        problems.append(('annotation-evaluated-after-binding', 'annotation read %s at %s: supp lists %s' % (name, pos, decl)))
+                    else:
+                        problems.append(('phantom:%s:%s%s' % (ins.sites[decl][1], ctx, vtag),
+                                         'supp associates %s (%s) with read %s at %s but no path reaches the read with that binding; run-time sites %s' % (
+                                             decl, ins.sites[decl][1], name, pos, sorted(dyn_sites, key=str))))
+            # (b), (c): only for names nothing else could supply
+            elsewhere = (name in BUILTIN_NAMES or has_star or name in ('use', 'risky')
+                         or any(sc != rscope for site, sc in sites_by_name.get(name, [])))
+            if elsewhere:
+                continue
+            supp_und = (fresh is None) or fresh['undefined']
+            if supp_und != dyn_unbound:
+                if nrv.unbound(pos, name) is not None and nrv.unbound(pos, name) == supp_und:
+                    problems.append(('undefined-flag-after-return', 'read %s at %s: undefined flag supp=%s run time=%s; they agree once return statements are treated as no-ops' % (name, pos, supp_und, dyn_unbound)))
+                elif pos in star_kw:
+                    problems.append(('star-argument-evaluated-before-keyword-walrus', '*%s at %s: undefined flag supp=%s run time=%s' % (name, pos, supp_und, dyn_unbound)))
                 elif rid in ins.class_comp_reads:
-                    problems.append(('class-body-comprehension-sees-class-names', 'read %s at %s inside a comprehension in a class body: supp lists the class-level binding %s, CPython skips the class scope there' % (name, pos, decl)))
-                elif decl in (nrv.sites(pos, name) or ()):
-                    after_return.add(decl)
-                    problems.append(('phantom-after-return', 'supp lists %s for read %s at %s; it reaches the read only if return statements are treated as no-ops' % (decl, name, pos)))
-                elif pos in split_reads and name in split_reads[pos]:
-                    problems.append(('statement-split-by-comprehension', 'read %s at %s: supp lists the later binding %s of its own statement' % (name, pos, decl)))
+                    problems.append(('class-body-comprehension-sees-class-names', 'read %s at %s: undefined flag supp=%s run time=%s' % (name, pos, supp_und, dyn_unbound)))
                 elif in_ann:
-                    problems.append(('annotation-evaluated-after-binding', 'annotation read %s at %s: supp lists %s' % (name, pos, decl)))
+                    problems.append(('annotation-evaluated-after-binding', 'annotation read %s at %s: undefined flag supp=%s run time=%s' % (name, pos, supp_und, dyn_unbound)))
+                elif pos in split_reads and name in split_reads[pos]:
+                    problems.append(('statement-split-by-comprehension', 'read %s at %s: undefined flag supp=%s run time=%s' % (name, pos, supp_und, dyn_unbound)))
+                elif name in cond_walrus:
+                    problems.append(('conditional-walrus-shadows-definition', 'read %s at %s: undefined flag supp=%s run time=%s' % (name, pos, supp_und, dyn_unbound)))
                 else:
-                    problems.append(('phantom:%s:%s' % (ins.sites[decl][1], ctx),
-                                     'supp associates %s (%s) with read %s at %s but no path reaches the read with that binding; run-time sites %s' % (
-                                         decl, ins.sites[decl][1], name, pos, sorted(dyn_sites, key=str))))
-        # (b), (c): only for names nothing else could supply
-        elsewhere = (name in BUILTIN_NAMES or has_star or name in ('use', 'risky')
-                     or any(sc != rscope for site, sc in sites_by_name.get(name, [])))
-        if elsewhere:
-            continue
-        supp_und = (fresh is None) or fresh['undefined']
-        if supp_und != dyn_unbound:
-            if nrv.unbound(pos, name) is not None and nrv.unbound(pos, name) == supp_und:
-                problems.append(('undefined-flag-after-return', 'read %s at %s: undefined flag supp=%s run time=%s; they agree once return statements are treated as no-ops' % (name, pos, supp_und, dyn_unbound)))
-            elif pos in star_kw:
-                problems.append(('star-argument-evaluated-before-keyword-walrus', '*%s at %s: undefined flag supp=%s run time=%s' % (name, pos, supp_und, dyn_unbound)))
-            elif rid in ins.class_comp_reads:
-                problems.append(('class-body-comprehension-sees-class-names', 'read %s at %s: undefined flag supp=%s run time=%s' % (name, pos, supp_und, dyn_unbound)))
-            elif in_ann:
-                problems.append(('annotation-evaluated-after-binding', 'annotation read %s at %s: undefined flag supp=%s run time=%s' % (name, pos, supp_und, dyn_unbound)))
-            elif pos in split_reads and name in split_reads[pos]:
-                problems.append(('statement-split-by-comprehension', 'read %s at %s: undefined flag supp=%s run time=%s' % (name, pos, supp_und, dyn_unbound)))
-            elif name in cond_walrus:
-                problems.append(('conditional-walrus-shadows-definition', 'read %s at %s: undefined flag supp=%s run time=%s' % (name, pos, supp_und, dyn_unbound)))
-            else:
-                problems.append(('undefined-flag:supp=%s:dyn=%s:%s' % (supp_und, dyn_unbound, ctx),
-                                 'read %s at %s: supp %s, run time: unbound on some path=%s, sites %s' % (
-                                     name, pos, 'absent' if fresh is None else fresh, dyn_unbound, sorted(dyn_sites, key=str))))
-        if not dyn_sites and dyn_unbound:
-            if (pos[0], pos[1], name) not in lv['E02']:
-                if alts and nrv.sites(pos, name):
-                    problems.append(('phantom-after-return', 'read %s at %s is unbound on every real path; it is bound on some path once return statements are treated as no-ops' % (name, pos)))
-                    continue
-                if rid in ins.class_comp_reads:
-                    problems.append(('class-body-comprehension-sees-class-names', 'read %s at %s is unbound on every path (class scope skipped) but supp resolves it to a class-level name' % (name, pos)))
-                    continue
-                if pos in split_reads and name in split_reads[pos]:
-                    problems.append(('statement-split-by-comprehension', 'read %s at %s is unbound on every path; supp resolves it to the binding its own statement makes afterwards' % (name, pos)))
-                    continue
-                if pos in star_kw:
-                    problems.append(('star-argument-evaluated-before-keyword-walrus', '*%s at %s is unbound on every path (evaluated before the keyword walrus)' % (name, pos)))
-                    continue
-                problems.append(('never-bound-not-flagged:%s' % ctx,
-                                 'read %s at %s is unbound on every path but lint does not report Undefined name' % (name, pos)))
+                    problems.append(('undefined-flag:supp=%s:dyn=%s:%s%s' % (supp_und, dyn_unbound, ctx, vtag),
+                                     'read %s at %s: supp %s, run time: unbound on some path=%s, sites %s' % (
+                                         name, pos, 'absent' if fresh is None else fresh, dyn_unbound, sorted(dyn_sites, key=str))))
+            if fresh is None and dyn_sites and dyn_unbound:
+                # not "possibly undefined" but resolved to nothing at all (what lint words as 'Undefined name'),
+                # which the statement reserves for names unbound on EVERY path
+                if in_ann:
+                    problems.append(('annotation-evaluated-after-binding', 'annotation read %s at %s: resolved to nothing, bound on some path' % (name, pos)))
+                elif pos in own_iter and all(ins.sites[s_][1] == 'comp' for s_ in dyn_sites if s_ in ins.sites):
+                    problems.append(('comprehension-own-iterable', 'read %s at %s in the iterable of the generator that binds it: resolved to nothing, bound from the previous trip' % (name, pos)))
+                elif pos in split_reads and name in split_reads[pos]:
+                    problems.append(('statement-split-by-comprehension', 'read %s at %s: resolved to nothing, bound on some path' % (name, pos)))
+                elif rid in ins.class_comp_reads or pos in star_kw:
+                    pass
+                else:
+                    problems.append(('resolved-to-nothing-but-bound-on-some-path:%s%s' % (ctx, vtag),
+                                     'read %s at %s: supp lists no definition at all (lint words this as Undefined name); run time reaches it with the name bound at %s' % (
+                                         name, pos, sorted(dyn_sites, key=str))))
+            if not dyn_sites and dyn_unbound:
+                if (pos[0], pos[1], name) not in lv['E02']:
+                    if alts and nrv.sites(pos, name):
+                        problems.append(('phantom-after-return', 'read %s at %s is unbound on every real path; it is bound on some path once return statements are treated as no-ops' % (name, pos)))
+                        continue
+                    if rid in ins.class_comp_reads:
+                        problems.append(('class-body-comprehension-sees-class-names', 'read %s at %s is unbound on every path (class scope skipped) but supp resolves it to a class-level name' % (name, pos)))
+                        continue
+                    if pos in split_reads and name in split_reads[pos]:
+                        problems.append(('statement-split-by-comprehension', 'read %s at %s is unbound on every path; supp resolves it to the binding its own statement makes afterwards' % (name, pos)))
+                        continue
+                    if pos in star_kw:
+                        problems.append(('star-argument-evaluated-before-keyword-walrus', '*%s at %s is unbound on every path (evaluated before the keyword walrus)' % (name, pos)))
+                        continue
+                    problems.append(('never-bound-not-flagged:%s' % ctx,
+                                     'read %s at %s is unbound on every path but lint does not report Undefined name' % (name, pos)))
+            # (d) the linter's verdict: 'Undefined name' on a read that no path reaches unbound
+            if vtag == '' and dyn_sites and not dyn_unbound and (pos[0], pos[1], name) in lv['E02']:
+                if in_ann:
+                    problems.append(('annotation-evaluated-after-binding', 'annotation read %s at %s: lint says undefined, bound at run time' % (name, pos)))
+                elif pos in split_reads and name in split_reads[pos]:
+                    problems.append(('statement-split-by-comprehension', 'read %s at %s: lint says undefined, bound at run time' % (name, pos)))
+                elif rid in ins.class_comp_reads or name in cond_walrus or pos in star_kw:
+                    pass        # judged above on the names_at view
+                else:
+                    problems.append(('lint-undefined-name-but-bound-on-every-path:%s' % ctx,
+                                     'lint reports Undefined name: %s at %s; every explored path reaches the read with the name bound (sites %s)%s' % (
+                                         name, pos, sorted(dyn_sites, key=str), '' if fresh is None else '; Flow.names_at lists %s' % (fresh,))))
     return problems, info
 
 
@@ -205,6 +242,7 @@ KNOWN_SIGS = {
     'C03-conditional-walrus': lambda sig: sig == 'conditional-walrus-shadows-definition',
     'C03-class-body-comprehension': lambda sig: sig == 'class-body-comprehension-sees-class-names',
     'C03-star-before-keyword-walrus': lambda sig: sig == 'star-argument-evaluated-before-keyword-walrus',
+    'C03-comprehension-own-iterable': lambda sig: sig == 'comprehension-own-iterable',
 }
 _listed = {e['id'] for e in core.load_known(PROPERTY) if e.get('status') == 'finding'}
 KNOWN_SIGS = {k: v for k, v in KNOWN_SIGS.items() if k in _listed}
